@@ -29,7 +29,7 @@ ASSUMPTIONS = [
 ]
 BOUNDS = {
     'quick': {'addterm_depth': 3, 'list_len': 3, 'termobj_depth': 4},
-    'thorough': {'addterm_depth': 5, 'list_len': 5, 'termobj_depth': 5},
+    'thorough': {'addterm_depth': 4, 'list_len': 4, 'termobj_depth': 5},
 }
 
 TERMS = ['x', '+x', '-x', 'y', '-y', '2', '-2.5', 'x*y', '-x*y', 'x/y', '(x)', '(-x)', '-(x)', '-(-x)',
